@@ -173,3 +173,32 @@ Proof.
   - intros (_ & _ & _ & H & _) Hp. lia.
   - intros (_ & _ & H) Hp. lia.
 Qed.
+
+(** * Evaluating the message predicates on a concrete message *)
+Ltac head_of t := lazymatch t with ?f _ => head_of f | _ => t end.
+Ltac mev_term t :=
+  let v := eval cbv beta iota delta [m_addr m_other m_credrc m_fin m_po m_pox m_rj m_data m_cred m_rc m_sf m_rf m_reqn m_srv m_intro m_bad] in t in
+  change t with v.
+Ltac mev_term_in t H :=
+  let v := eval cbv beta iota delta [m_addr m_other m_credrc m_fin m_po m_pox m_rj m_data m_cred m_rc m_sf m_rf m_reqn m_srv m_intro m_bad] in t in
+  change t with v in H.
+Ltac is_mpred2 p :=
+  lazymatch p with
+  | m_addr => idtac | m_other => idtac | m_credrc => idtac | m_fin => idtac | m_po => idtac | m_rj => idtac
+  | m_data => idtac | m_cred => idtac | m_rc => idtac | m_sf => idtac | m_rf => idtac | m_reqn => idtac
+  | m_srv => idtac | m_intro => idtac
+  end.
+Ltac mev :=
+  cbn [fst] in *;
+  repeat match goal with
+  | |- context [m_pox ?y ?x ?m] => let h := head_of m in is_constructor h; mev_term (m_pox y x m)
+  | |- context [m_bad ?m] => let h := head_of m in is_constructor h; mev_term (m_bad m)
+  | |- context [?p ?y ?m] => is_mpred2 p; let h := head_of m in is_constructor h; mev_term (p y m)
+  | H : context [m_pox ?y ?x ?m] |- _ => let h := head_of m in is_constructor h; mev_term_in (m_pox y x m) H
+  | H : context [m_bad ?m] |- _ => let h := head_of m in is_constructor h; mev_term_in (m_bad m) H
+  | H : context [?p ?y ?m] |- _ => is_mpred2 p; let h := head_of m in is_constructor h; mev_term_in (p y m) H
+  end;
+  cbn [orb andb b2n] in *; rewrite ?orb_false_r, ?andb_false_r, ?N.eqb_refl in *; cbn [orb andb b2n] in *.
+
+Goal forall y x y0 pl L, y0 <> y -> cnt (m_other y) (L ++ [(PortOpened y x, pl)]) = cnt (m_other y) L /\ m_addr y0 (PortOpened y x) = false.
+Proof. intros. rewrite cnt_snoc. mev. split; [lia|]. apply N.eqb_neq. congruence. Qed.
